@@ -91,6 +91,7 @@ class Ctx:
         self.fresh_refs = []       # refs of SMT objects/lists allocated on this path
         self.no_branch = 0
         self.merge_fresh = set()
+        self.base_len = None       # length of pc after requires/definitions: facts before it survive loop cuts
         self.literals = set()
         self.subst = []
         self.written = []          # heap writes to SMT lists / fields on this path (frame conditions)
